@@ -102,7 +102,7 @@ func NormalizeInput(item bool, in map[string]any) (map[string]any, error) {
 	}
 	var fields []fld
 	if item {
-		fields = []fld{{"v", "int", true, nil}, {"mode", "string", false, "ok"}, {"dur", "int", false, int64(0)}, {"tag", "string", false, ""}}
+		fields = []fld{{"v", "int", true, nil}, {"mode", "string", false, "ok"}, {"dur", "int", false, int64(0)}, {"tag", "string", false, ""}, {"pat", "string", false, nil}}
 	} else {
 		fields = []fld{{"n", "int", true, nil}, {"m", "int", false, int64(7)}, {"tag", "string", true, nil}, {"flag", "bool", true, nil},
 			{"opt", "string", false, nil}, {"zero", "int", false, int64(0)}, {"items", "items", false, nil}, {"nested", "nested", false, nil},
